@@ -125,6 +125,20 @@ fn shared_send_future_dropped_while_waiting_leaves_the_queue() {
     core::mem::forget((s, r));
 }
 
+/// close() through the shared handles is the channel's close: permanent, NewlyClosed exactly once whichever handle is used
+#[kani::proof]
+fn shared_close_through_either_handle_closes_the_channel_once() {
+    let (s, r) = pair();
+    let via_sender: bool = kani::any();
+    let first = if via_sender { s.close() } else { r.close() };
+    assert!(first.is_newly_closed() && closed(&s), "[C11] close() through a shared handle closes the channel and reports NewlyClosed");
+    let via_sender_again: bool = kani::any();
+    let second = if via_sender_again { s.close() } else { r.close() };
+    assert!(second.is_already_closed() && closed(&s), "[C11] close() is permanent and idempotent through either handle: AlreadyClosed afterwards");
+    assert!(matches!(s.try_send(9), Err(TrySendError::Closed(9))), "[C11] [C08] after close every send attempt fails and returns the caller's own value");
+    core::mem::forget((s, r));
+}
+
 #[kani::proof]
 fn sender_clone_and_drop_count_handles() {
     let (s, r) = pair();
